@@ -18,10 +18,23 @@
   ParseAllContactValues, ParseAllPAIValues, ParseHdrLine, ParseHeaders: the relational law `RR` (same offset,
   same verdict, same object unless the verdict is an error, same observable object after an error), with the
   legitimacy conditions re-established at every suspension.
-  NOT yet proved (covered by the correspondence + oracle checks only):
-  ParseAllPAIValues, ParseTokenParam, ParseAllURIParams, ParseAllURIHdrs. They are instances of
-  the same generic theorems (`runLoop_resume` + one restart lemma per suspension site); the theorem below
-  named `all_parsers_partial` states the full property with exactly those missing pieces as hypotheses.
+  ParseTokenParam (every option combination without the end-of-input option, the space-terminator mode included) and the
+  URI parameter / header list wrappers: `resume_tokparam`, `schedule_tokparam`, `resume_uriparams`, `resume_urihdrs`,
+  `schedule_uri*` (Proofs/TokParamL1, UriListsL).
+  The end-of-input option on the LAST call (`Sipsp.Proofs.TokParamEnd`): `resume_tokparam_end` — if a call without the
+  option returned MoreBytes, the resumed call on any extension WITH the option equals one call with the option from the
+  original state (same offset, verdict, object; no hypothesis on the object): the option may be switched on at the
+  resumed call; `stable_tokparam_end` (a definitive result without the option is the result with it on every
+  extension); `schedule_tokparam_end`: for every growing sequence of prefixes whose last element is the whole input, all
+  calls but the last without the option and the last with it, the chain returns what ONE call with the option on the
+  whole input returns; `resume_uriparams_end`, `resume_urihdrs_end`, `schedule_uriparams_end`, `schedule_urihdrs_end`:
+  the same for the list wrappers (per-call counts sum to the one-shot count). All three suspension sites (end of
+  buffer, white space up to the end of buffer, open quoted string) are valid restart points once the end of buffer
+  becomes a terminator.
+  `all_parsers_partial` (kept): the generic schedule statement for ANY parser with a one-step law — every theorem
+  above instantiates it.
+  NOT proved: schedules in which a call before the last one already carries the end-of-input option (a misuse: the
+  option claims the input ends there).
 -/
 import Sipsp.Proofs.CallID
 import Sipsp.Proofs.UInt
@@ -32,6 +45,7 @@ import Sipsp.Proofs.NameAddrL2
 import Sipsp.Proofs.HeadersL2
 import Sipsp.Model.Msg
 import Sipsp.Proofs.UriListsL
+import Sipsp.Proofs.TokParamEnd
 
 namespace Sipsp.C02
 open Sipsp
@@ -185,5 +199,39 @@ example : Growing [#[97, 64, 98, 32, 13], #[97, 64, 98, 32, 13, 10], #[97, 64, 9
   refine ⟨⟨#[10], by decide⟩, ⟨#[88], by decide⟩, trivial⟩
 example : (parseCallIDVal #[97, 64, 98, 32, 13] 0 {}).2.1 = Err.moreBytes := by decide +kernel
 example : (parseCallIDVal #[97, 64, 98, 32, 13, 10, 88] 0 {}).2.1 = Err.ok := by decide +kernel
+
+/-! ### the end-of-input option on the last call of a schedule (proved in `Sipsp.Proofs.TokParamEnd`) -/
+
+/-- **C02 for ParseTokenParam, the last call carrying the end-of-input option**: if a call without the option
+    returned MoreBytes at `(o', p')`, the call on any extension `b ++ s` (possibly `s = #[]`: nothing more arrived,
+    the input just ended) from `(o', p')` WITH the option returns exactly (offset, verdict, object) what one call
+    with the option on `b ++ s` from the original `(o, p)` returns.  Any object `p`, any other options. -/
+theorem resume_tokparam_end : type_of% @Sipsp.parseTokenParam_resume_end := @Sipsp.parseTokenParam_resume_end
+
+/-- **L1 for ParseTokenParam, flag switched on later**: a definitive result of a call without the end-of-input
+    option is the result of the call with the option on every extension of the buffer (the buffer itself included) -/
+theorem stable_tokparam_end : type_of% @Sipsp.parseTokenParam_stable_end := @Sipsp.parseTokenParam_stable_end
+
+/-- **ParseTokenParam under every chunk schedule whose last call carries the end-of-input option**: all calls but
+    the last without the option, the last one (on the whole input `B`) with it: the chain returns the offset, the
+    verdict and the object of ONE call with the option on `B`. -/
+theorem schedule_tokparam_end : type_of% @Sipsp.parseTokenParam_schedule_end := @Sipsp.parseTokenParam_schedule_end
+
+/-- **C02 for ParseAllURIParams, the last call carrying the end-of-input option**: after `MoreBytes` (with `n'` values
+    parsed so far) at `(o', l')` from a call without the option, the call WITH the option on any extension from
+    `(o', l')` returns the offset, the verdict and the very list object of ONE call with the option on the extended
+    buffer from `(offs, l)`; the numbers of values parsed add up. -/
+theorem resume_uriparams_end : type_of% @Sipsp.parseAllURIParams_resume_end := @Sipsp.parseAllURIParams_resume_end
+
+/-- **C02 for ParseAllURIHdrs, the last call carrying the end-of-input option** -/
+theorem resume_urihdrs_end : type_of% @Sipsp.parseAllURIHdrs_resume_end := @Sipsp.parseAllURIHdrs_resume_end
+
+/-- **ParseAllURIParams under every chunk schedule whose last call carries the end-of-input option**: offset,
+    verdict, total number of values (the per-call numbers added up) and list object of the chain are those of ONE
+    call with the option on the whole input `B` -/
+theorem schedule_uriparams_end : type_of% @Sipsp.parseAllURIParams_schedule_end := @Sipsp.parseAllURIParams_schedule_end
+
+/-- **ParseAllURIHdrs under every chunk schedule whose last call carries the end-of-input option** -/
+theorem schedule_urihdrs_end : type_of% @Sipsp.parseAllURIHdrs_schedule_end := @Sipsp.parseAllURIHdrs_schedule_end
 
 end Sipsp.C02
